@@ -86,18 +86,20 @@ Definition build_avcc_fmp4 (c : frag_config) : bytes :=
   build_box T_avcC ([1; nth_or (fc_sps c) 1 66; nth_or (fc_sps c) 2 0; nth_or (fc_sps c) 3 30; 255; 225] ++
                     be16 (len (fc_sps c)) ++ fc_sps c ++ [1] ++ be16 (len (fc_pps c)) ++ fc_pps c).
 
+(* both records are written by the builders of the progressive muxer (fix 'fragmented init segment
+   writes hvcC and av1C with the progressive builders') *)
 Definition build_hvcc_fmp4 (c : frag_config) : bytes :=
-  build_box T_hvcC
-    ([1; 0; 0;0;0;0; 0;0;0;0;0;0; 0; 0;0; 0; 0; 0; 0; 0;0; 7;
-      match fc_vps c with Some _ => 3 | None => 2 end] ++
-     (match fc_vps c with
-      | Some v => [160] ++ be16 1 ++ be16 (len v) ++ v
-      | None => [] end) ++
-     [161] ++ be16 1 ++ be16 (len (fc_sps c)) ++ fc_sps c ++
-     [162] ++ be16 1 ++ be16 (len (fc_pps c)) ++ fc_pps c).
+  build_hvcc_box {| hevc_vps := match fc_vps c with Some v => v | None => [] end;
+                    hevc_sps := fc_sps c; hevc_pps := fc_pps c |}.
+
+Definition av1_config_default (s : bytes) : av1_config :=
+  {| av1_sequence_header := s; av1_seq_profile := 0; av1_seq_level_idx := 0; av1_seq_tier := 0;
+     av1_high_bitdepth := false; av1_twelve_bit := false; av1_monochrome := false;
+     av1_subsampling_x := true; av1_subsampling_y := true; av1_chroma_sample_position := 0 |}.
 
 Definition build_av1c_fmp4 (c : frag_config) : bytes :=
-  build_box T_av1C ([1; 0; 0] ++ match fc_av1 c with Some s => s | None => [] end).
+  let s := match fc_av1 c with Some s => s | None => [] end in
+  build_av1c_box (match extract_av1_config s with Some a => a | None => av1_config_default s end).
 
 Definition build_vpcc_fmp4 (c : frag_config) : bytes :=
   build_box T_vpcC
